@@ -28,6 +28,7 @@ type replay struct {
 	Label   string         `json:"label"`
 	Inputs  []input        `json:"inputs"`
 	Params  map[string]int `json:"params"`
+	PBytes  map[string][]byte `json:"pbytes"`
 }
 
 // Result of a native replay.
@@ -118,6 +119,12 @@ func Param(name string, def int) int {
 		return x
 	}
 	return def
+}
+
+// ParamBytes returns a byte-string parameter chosen by the engine's automaton driver (a concrete
+// prefix that reaches the state being explored).
+func ParamBytes(name string) []byte {
+	return append([]byte(nil), cur.PBytes[name]...)
 }
 
 // Concrete forks the path on the value of x (engine) and returns it.
